@@ -463,7 +463,7 @@ char* XMLReader::getAttribute(const char* name) const
 std::string XMLReader::getAttributeStr(std::string_view name) const
 {
     char* value = getAttribute(name.data());
-    auto res = std::string{value};
+    auto res = std::string{value ? value : ""};  // an absent attribute reads as empty
     xmlFree(value);
     return res;
 }
